@@ -22,7 +22,10 @@ TRUSTED_BASE = [
     "(checked on every run by the `pcb` correspondence family in storing and syntax-only mode, under ASan+UBSan)",
     "tools/gen/pcb.py: the renderer (abstract document -> text + token sequence; the lexer itself is another group's "
     "model) and the independent implementation-level oracle; harness/x_pcb.c, harness/cifio.h",
-    "lean/CifModel/Spec/Traversal.lean part 2 (Doc, tokensOf, docEvents, denote) as the meaning of the `_full` statements",
+    "lean/CifModel/Spec/Traversal.lean parts 2-4 (Doc, tokensOf, docEvents, denote, prunedDoc, cutDoc), Spec/TraversalEvents.lean "
+    "(evDoc), Spec/TraversalDup.lean (dupEvents, dupDenote) as the meaning of the statements",
+    "lean/CifModel/Model/ParseCBDup.lean (DUP_* diagnostics) and Model/ParseCBRec.lean (token-level recoveries; the model the pcb "
+    "driver runs, cross-checked against parseCBD and parseCB on every case without the respective diagnostics)",
 ]
 ASSUMPTIONS = [
     "documents are well-formed CIF 2.0 except that block codes, frame codes and data names (scalar items, loop headers) may "
@@ -38,41 +41,58 @@ ASSUMPTIONS = [
     "default parse options (max_frame_depth clamps to 1: one level of save frames)",
 ]
 PARTIAL = [
-    "the document-level theorems (C15_all_continue_mirror, C15_stored_is_structural(_any), C15_skip_semantics_rest, "
-    "C15_stop_semantics_store, C15_events_sublist) are about the LAYOUT-FREE token sequence tokensOf d of a well-formed, "
-    "duplicate-free abstract document (wfDocN norm d, any normalisation norm; with duplicates: parseCBD, "
-    "C15_dup_all_continue_mirror).  Whitespace / comment callbacks: proved per token only (C15_ws_reported_in_order: "
-    "next_token reports the layout in front of a token in order, comments always, whitespace unless skipping, once); their "
-    "order across a whole document and the independence of everything else from layout are NOT theorems — they are checked "
-    "by the correspondence run (the oracle compares the concatenated whitespace callbacks with the document's layout, all "
-    "layouts of the renderer)",
-    "the store is characterised for EVERY program (C15_stop_semantics_store: pruned and cut at the stopping answer, cutDoc) "
-    "and agrees with the independent Spec/Grammar denotation (C15_denote_is_grammar_denote); the callback LOG at document "
-    "level is characterised exactly for all-continue programs (= docEvents) and for every program as a sublist of docEvents "
-    "in document order (C15_events_sublist); which callbacks are left out is said through the structural interpreter xDoc "
-    "(C15_stored_is_structural_any) and the region theorems, not by a closed declarative formula",
+    "layout: PROVED (Props/C15Layout.lean) for ALL token sequences, all programs, both modes — two token sequences that differ "
+    "only in the whitespace runs / comments in front of their tokens give the same result, the same stored CIF and the same "
+    "handler / data-name / keyword (and error) callbacks in the same order (C15_layout_independent, C15_layout_free; C15_dup_layout "
+    "for the model with the duplicate diagnostics), and the whitespace callbacks are, in order, the layout of a prefix of the "
+    "tokens (each token once): every comment, and every whitespace run unless the token was scanned inside a skipped region — the "
+    "same tokens whatever the layout (C15_layout_callbacks); for a well-formed document under a program that never stops every "
+    "token's layout is visited (C15_layout_callbacks_doc), with all-continue handlers the callbacks are the whole layout "
+    "(C15_layout_all_continue), in the terms of Spec/Grammar's printer the concatenated callback texts are the separators l 0, "
+    "l 1, … of render d l (C15_layout_rendered); all document-level theorems hold with any layout "
+    "(C15_layout_all_continue_mirror, C15_layout_stop_semantics, C15_start_only_callbacks_layout).  NOT a theorem: that the "
+    "scanner turns the characters of render d l into these tokens WITH this layout attached (Tok.pre): the lexer model of C01 "
+    "(C01_feeds) has no whitespace callback; the tie is the correspondence run (the pcb renderer produces text and tokens with "
+    "layout; the oracle now checks the whitespace callbacks under skipping / stopping programs too: layout of a token prefix, "
+    "comments always, whitespace all-or-nothing per token).  C15_layout_rendered assumes that no table of the document repeats a "
+    "key (decidable hypothesis hlen)",
+    "which callbacks are delivered: exactly docEvents for all-continue programs; for programs that steer from the START callbacks "
+    "only (CONTINUE / SKIP_CURRENT / SKIP_SIBLINGS / END at cif / block / frame / loop / packet start, CONTINUE elsewhere) exactly "
+    "the formula evDoc over the document tree (Spec/TraversalEvents.lean, C15_start_only_callbacks); for programs that also "
+    "deviate at item or end callbacks, or answer error codes: a sublist of docEvents in document order (C15_events_sublist) "
+    "and, exactly, the structural interpreter xDoc (C15_stored_is_structural_any) — no formula without the depth counter there; "
+    "the STORE is characterised for every program (C15_stop_semantics_store, cutDoc)",
     "C15_syntax_only_same_log assumes a handler program that does not look at the (NULL in syntax-only mode) handles and that "
     "the storing parse does not stop on a frame-nesting diagnostic (input not well-formed under the options)",
-    "duplicate block/frame codes and data names (DUP_* diagnostics, accepting error callback): modelled (parseCBD), covered "
-    "by the correspondence run with an oracle that restates the recovery (reopen the existing block/frame: its handle goes to "
-    "the handlers, its content is what later names are checked against and added to; a duplicate scalar gets its data-name "
-    "callback and the error callback but no item handler and is not stored; a duplicate loop-header name is dropped from "
-    "loop_start / the loop, its values are parsed without item handler; header names are checked against the container "
-    "even while skipping, against the header itself even without a container) and, for all-continue handlers and documents "
-    "whose loop headers repeat nothing, by the theorem C15_dup_all_continue_mirror (callbacks = dupEvents, store = dupDenote; "
-    "Spec/TraversalDup.lean); duplicate loop-header names and duplicates under skipping / stopping programs are covered by the "
-    "model + correspondence only",
+    "duplicates (DUP_* diagnostics, accepting error callback; model parseCBD): for EVERY program and every well-formed document "
+    "with any repetition of block codes, frame codes, scalar names and loop-header names the parse is the structural "
+    "interpreter xDocD over the document tree (C15_dup_structural_any: handler steps + duplicate checks against the content "
+    "stored so far, no tokens, no fuel); on duplicate-free documents no check ever fires, for every program: parseCBD = parseCB "
+    "(C15_dup_is_plain_without_duplicates), so every document-level theorem transfers; all-continue: callbacks = dupEvents, store "
+    "= dupDenote (C15_dup_all_continue_mirror, headers without repeats); duplicate loop-header names: C15_dup_header_dropped_column "
+    "(all-continue, parse_loop level: error callback behind the data-name callback of every dropped name, loop_start / packet_end "
+    "/ stored loop with the retained names and values, NO item handler for a dropped column).  NOT proved: a declarative "
+    "(interpreter-free) characterisation of callbacks and store for documents WITH duplicates under skipping / stopping programs "
+    "(what counts as a duplicate then depends on what the program let the parser store) — covered by "
+    "xDocD + the correspondence run with an oracle that restates the recovery",
+    "recovery paths with handler code (CIF_PARTIAL_PACKET, CIF_EMPTY_LOOP, CIF_NULL_LOOP, CIF_MISSING_VALUE, "
+    "CIF_UNEXPECTED_VALUE under handler programs): model layer Model/ParseCBRec.lean + correspondence + oracle, no theorem",
 ]
-LEVEL_TEXT = ("Proof about the executable token-level model ParseCB.parseCB. For all token sequences and all handler programs: "
+LEVEL_TEXT = ("Proof about the executable token-level models ParseCB.parseCB / parseCBD. For all token sequences and all handler programs: "
               "skip_depth balance of every production, an END / error answer is the last callback and determines the result, "
-              "SKIP answers open regions that are silent and store nothing, syntax-only mode = storing mode up to handles. For "
-              "every well-formed abstract document over its token sequence: all-continue callbacks = document order events and "
-              "store = denotation; for EVERY program (skips, END, error codes) store = denotation of the document with the bypassed "
-              "sub-trees removed and cut at the stopping answer (cutDoc), return value = that answer if positive else CIF_OK. "
-              "The model is tied to src/parser.c by differential execution in storing and syntax-only mode with an independent "
-              "implementation-level oracle that restates C15.")
-LEVEL_NOTE = ("Document-level theorems are about layout-free token sequences (layout is covered by the token-sequence theorems and "
-              "the correspondence run); DUP_* diagnostics and error recovery are outside the model. F33 fixed by 43d0bb7. Trusted: "
-              "Lean kernel, model transcription (checked by correspondence), Spec/Traversal.lean (Doc, docEvents, denote, prunedDoc), "
-              "renderer/oracle in tools/gen/pcb.py, harness.")
+              "SKIP answers open regions that are silent and store nothing, syntax-only mode = storing mode up to handles, and LAYOUT "
+              "independence: whitespace runs and comments in front of the tokens change nothing but the whitespace callbacks, which follow "
+              "the layout in order (comments always, whitespace unless skipping). For every well-formed abstract document, with any layout: "
+              "all-continue callbacks = document order events and store = denotation; for EVERY program store = denotation of the document "
+              "with the bypassed sub-trees removed and cut at the stopping answer (cutDoc), return value = that answer if positive else "
+              "CIF_OK; for programs steering from the start callbacks the delivered callbacks = the formula evDoc. Duplicates (DUP_* "
+              "diagnostics): for every program the parse = the structural interpreter xDocD; = the plain model on duplicate-free documents; "
+              "all-continue mirror incl. dropped loop columns. The models are tied to src/parser.c by differential execution in storing and "
+              "syntax-only mode with an independent implementation-level oracle that restates C15, duplicates and token-level recoveries "
+              "under handler programs included.")
+LEVEL_NOTE = ("Layout is proved at the token level (tokens carry their layout); that the scanner attaches exactly the rendered separators is "
+              "correspondence. Duplicates under skipping / stopping programs: structural interpreter + correspondence, no closed formula. "
+              "Recovery paths with handler code (partial packet etc.): model layer + correspondence only. F33 fixed by 43d0bb7. Trusted: "
+              "Lean kernel, model transcription (checked by correspondence), Spec/Traversal*.lean (Doc, docEvents, denote, prunedDoc, cutDoc, "
+              "evDoc, dupEvents), renderer/oracle in tools/gen/pcb.py, harness.")
 TECHNIQUE = "Lean 4 proof (fuel induction with a boundary invariant for skip_depth) + differential correspondence with an independent oracle"
